@@ -659,7 +659,13 @@ fn restore_contents<S: Open>(
                                     sizes_guard[file_idx] = 0;
                                 }
                                 drop(sizes_guard);
-                                if !is_sparse {
+                                // An all-zero blob is only skipped where the file already reads as zeros:
+                                // setting the length of an existing file keeps its old content.
+                                let skip = is_sparse
+                                    && dest
+                                        .read_at(path, start, size)
+                                        .is_ok_and(|old| old.iter().all(|&b| b == 0));
+                                if !skip {
                                     dest.write_at(path, start, &data).unwrap();
                                 }
                                 p.inc(size);
